@@ -78,8 +78,27 @@ def corpus(tier, seed):
             text += t + sep
             lab.append(tag)
         out.append((text, exp, "+".join(lab)))
+    out.extend(_short_after_declaration())
     if tier == "thorough":
         out.extend(_special_streams())
+    return out
+
+
+def _short_after_declaration():
+    """short messages behind XML declarations / blank residues: the residue that precedes a message is
+    longer than the message itself (catches stale scan offsets / cached positions in the buffer)"""
+    out = []
+    shorts = [("message", (), None, ()), ("pingReply", (("uid", "1"),), None, ()), ("getProperties", (("version", "1.7"),), None, ())]
+    k = 0
+    for decl in G.DECLS[1:] + ("\n\n   \n", "<!-- a comment -->"):
+        for a in shorts:
+            b = shorts[(k + 1) % 3]
+            k += 1
+            ta, tb = G.serialise(a, G.Spelling(empty=k % 3)), G.serialise(b, G.Spelling(empty=(k + 1) % 3))
+            text = decl + ta + decl + tb
+            e1 = len(decl) + len(ta)
+            exp = [(e1, X.view_of_desc(a), a), (e1 + len(decl) + len(tb), X.view_of_desc(b), b)]
+            out.append((text, exp, "short-after-residue"))
     return out
 
 
@@ -179,7 +198,7 @@ def run_shard(shard):
             stats["deliv"] += 1
         return base(i, nd, k, delivered, buf, exc)
 
-    r = BG.explore(text, T, chk)
+    r = BG.explore(text, T, chk, max_hangs=2)
     res["states"] = r["states"]
     res["transitions"] = r["transitions"]
     res["graphs"] = 1
